@@ -156,6 +156,11 @@ func (g *scopeGen) bind(depth int, scope []string) string {
 	case 4:
 		return "n"
 	}
+	if depth > 0 && r.Chance(50) {
+		// a let inside a binding expression (evaluated in the enclosing scope)
+		v := gen.Pick(r, c19Vars)
+		return "(let " + v + " = " + g.bind(depth-1, scope) + " in " + g.leaf(append(append([]string{}, scope...), v)) + ")"
+	}
 	return g.expr(depth, scope)
 }
 
@@ -244,6 +249,12 @@ var c19Shapes = []string{
 	"let $a = id in (xs[*] | [0] | [$a, id])",
 	"let $a = 'A' in xs[*].{k: let $b = id in [$a, $b], j: $a}",
 	"let $n = `2` in xs[?n > $n].[id, let $n = n in xs[?n > $n].id]",
+	// lets inside the binding expressions of a let with several bindings
+	"let $a = 'a0', $b = 'b0', $c = 'c0' in let $a = (let $t = 't' in 'a1'), $b = (let $t = 't' in 'b1') in [$a, $b, $c]",
+	"let $a = (let $t = id in $t), $b = (let $u = n in $u), $c = (let $v = 'c' in $v) in [$a, $b, $c]",
+	"let $p = 'p' in let $a = (let $t = $p in [$t, 'a']), $b = (let $t = $p in [$t, 'b']), $c = $p in [$a, $b, $c]",
+	"let $a = id, $b = (let $a = 'inner-b' in $a), $c = (let $a = 'inner-c' in $a) in [$a, $b, $c]",
+	"let $a = xs[*].[let $i = id in $i], $b = xs[*].[let $k = n in $k] in [$a, $b]",
 	// wide lets, and narrow lets after them that look up names they do not bind
 	"let $a = 'A', $b = 'B', $c = 'C', $d = 'D', $e = 'E', $f = 'F', $g = 'G', $h = 'H' in [$a, $b, $c, $d, $e, $f, $g, $h]",
 	"let $q = 't' in $a",
@@ -282,7 +293,7 @@ func c19ShapesRun(c *Ctx, idx int) {
 func init() {
 	Register(&Property{
 		ID:            "C19",
-		Rule:          "let-expressions over variables {$a,$b,$c} whose bound values are unique tagged literals or context-dependent selections (id of the current node), so the result says which binding and which context was captured: 66 canonical scope shapes (incl. wide lets of 6-10 bindings followed by narrow lets that look up unbound or outer names) (rebinding, null-valued inner bindings shadowing non-null outer ones at every kind of use site, shadowing, let $a = $a, sibling references, use after the body, bindings under projections/filters/pipes/multi-selects/sort_by, max_by, min_by, map, group_by expression references, nested lets rebinding per element, unbound references at every kind of site, short-circuited unbound references) plus seeded random nestings of depth 3-4 mixing all of those; compared with the reference model's lexical environments; non-trivial = model decides and the text uses a variable",
+		Rule:          "let-expressions over variables {$a,$b,$c} whose bound values are unique tagged literals or context-dependent selections (id of the current node), so the result says which binding and which context was captured: 71 canonical scope shapes (incl. wide lets of 6-10 bindings followed by narrow lets that look up unbound or outer names) (rebinding, null-valued inner bindings shadowing non-null outer ones at every kind of use site, shadowing, let $a = $a, sibling references, use after the body, bindings under projections/filters/pipes/multi-selects/sort_by, max_by, min_by, map, group_by expression references, nested lets rebinding per element, unbound references at every kind of site, short-circuited unbound references) plus seeded random nestings of depth 3-4 mixing all of those; compared with the reference model's lexical environments; non-trivial = model decides and the text uses a variable",
 		MinNontrivial: 1000,
 		Streams: []Stream{
 			{Name: "shapes", Setup: c19Setup, N: func(c *Ctx) int { return len(c19Shapes) }, Run: c19ShapesRun, Exhaustive: true},
